@@ -291,6 +291,11 @@ def _run_cells(prop, cells, opts, jobs):
                 del running[i]
             elif not p.is_alive():
                 p.join()
+                try:
+                    if parent.poll(1):
+                        results[i] = parent.recv()
+                except (EOFError, OSError):
+                    results[i] = None
                 parent.close()
                 del running[i]
             else:
